@@ -80,7 +80,7 @@ MARKER_PROPS = {
     "VF:huffman.forms.": ["C20"],
     "VF:dictionary.": ["C07"],
     "VF:dictionary.read_differs_from_pushed": ["C07", "C01", "C04", "C10"],
-    "VF:dictionary.covered_value_refused": ["C07", "C01"],
+    "VF:dictionary.covered_value_refused": ["C07", "C01", "C10"],
     "VF:dictionary.reserve": ["C10"],
     "VF:dictionary.reserve.earlier_read_changed": ["C10", "C02", "C07"],
     "VF:dictionary.earlier_read_changed": ["C07", "C02"],
@@ -102,6 +102,10 @@ MARKER_PROPS = {
     "VF:intoowned.slice.region_to_region_index": ["C20"],
     "VF:intoowned.cip": ["C14", "C20", "C12"],
     "VF:intoowned.optslice": ["C14", "C20"],
+    "VF:intoowned.cip.accessors": ["C13", "C12", "C01"],
+    "VF:collapse.clone_from": ["C11", "C09", "C01"],
+    "VF:collapse.slice_opt": ["C11", "C01"],
+    "VF:wrapped.region_to_region_eq": ["C14", "C15"],
     "VF:intoowned.columns.region_to_region": ["C14", "C20"],
     "VF:intoowned.columns.region_to_region_index": ["C12"],
     "VF:intoowned.nested.region_to_region": ["C14", "C20"],
